@@ -5,12 +5,6 @@ import GluonModel.Lemmas.MatchRun
 namespace Gluon.Match
 open Gluon
 
-/-- the name contains no newline (Go's `.` does not match `\n`) -/
-def NoNL (n : Name) : Prop := ∀ x ∈ n, x ≠ '\n'
-
-/-- delimiters for which `[^<del>]*` is a well-formed character class: everything but backslash -/
-def DelimOK (d : Char) : Prop := d ≠ '\\'
-
 /-! ### a trailing `%` survives canonicalisation -/
 
 theorem isInboxSeg_snoc_pct (xs : Name) : Spec.isInboxSeg (xs ++ ['%']) = false := by
@@ -19,41 +13,26 @@ theorem isInboxSeg_snoc_pct (xs : Name) : Spec.isInboxSeg (xs ++ ['%']) = false 
   have := congrArg List.getLast? e
   simp at this
 
-theorem getLast?_append_cons {α : Type} (xs zs : List α) (y v : α) (h : zs.getLast? = some v) :
-    (xs ++ y :: zs).getLast? = some v := by
-  simp [List.getLast?_append, List.getLast?_cons, h]
-
-theorem canonAux_last_pct (d : Char) : ∀ (cs seg : Name), cs.getLast? = some '%' →
-    (canonAllAux d seg cs).getLast? = some '%' := by
-  intro cs
-  induction cs with
-  | nil => intro seg h; simp at h
-  | cons c cs ih =>
-    intro seg h
-    cases cs with
-    | nil =>
-      simp at h; subst h
-      by_cases hd : '%' = d
-      · rw [canonAllAux]
-        simp only [hd, if_true]
-        rw [canonAllAux]
-        simp [Spec.isInboxSeg, List.getLast?_append]
-      · rw [canonAllAux]
-        simp only [hd, if_false]
-        rw [canonAllAux]
-        simp only [List.reverse_cons, isInboxSeg_snoc_pct]
-        simp
-    | cons c2 rest =>
-      rw [List.getLast?_cons_cons] at h
-      rw [canonAllAux]
-      by_cases hd : c = d
-      · simp only [hd, if_true]
-        exact getLast?_append_cons _ _ _ _ (ih [] h)
-      · simp only [hd, if_false]
-        exact ih (c :: seg) h
-
 theorem canon_last_pct (d : Char) (n : Name) (h : n.getLast? = some '%') : (canon d n).getLast? = some '%' := by
-  rw [canon_eq]; exact canonAux_last_pct d n [] h
+  rw [canon_eq]
+  simp only [Spec.canon]
+  have hsplit := List.takeWhile_append_dropWhile (p := fun x => x != d) (l := n)
+  cases hdw : n.dropWhile (· != d) with
+  | nil =>
+    rw [hdw, List.append_nil] at hsplit
+    rw [hsplit]
+    obtain ⟨ys, hx⟩ := List.getLast?_eq_some_iff.mp h
+    have hi : Spec.isInboxSeg n = false := by rw [hx]; exact isInboxSeg_snoc_pct _
+    simp [hi, h]
+  | cons y ys =>
+    rw [hdw] at hsplit
+    have : (y :: ys).getLast? = some '%' := by
+      rw [← hsplit, List.getLast?_append] at h
+      cases hl : (y :: ys).getLast? with
+      | none => simp at hl
+      | some v => rw [hl] at h; simpa using h
+    rw [List.getLast?_append, this]
+    rfl
 
 theorem endsPct_toItems (d : Char) (ref pat : Name) (h : pat.getLast? = some '%') :
     EndsPct (toItems (canon d (ref ++ pat))) := by
@@ -63,30 +42,22 @@ theorem endsPct_toItems (d : Char) (ref pat : Name) (h : pat.getLast? = some '%'
 
 /-! ### match -/
 
-theorem nonl_of_level {d : Char} {n q : Name} (hn : NoNL n) (hq : q ∈ Spec.levels d n) : NoNL q := by
-  rw [Spec.mem_levels_iff] at hq
-  rcases hq with ⟨r, rfl⟩ | rfl
-  · exact fun x hx => hn x (by simp [hx])
-  · exact hn
-
 theorem level_eq_of_length {d : Char} {p r : Name} (hr : r ∈ Spec.levels d p) (hl : p.length ≤ r.length) : r = p := by
   rw [Spec.mem_levels_iff] at hr
   rcases hr with ⟨t, rfl⟩ | rfl
   · simp at hl; omega
   · rfl
 
-/-- `match` answers what RFC 3501 prescribes, for every reference, pattern, name without newline and
-    delimiter other than backslash. -/
-theorem matchName_spec (ref pat : Name) (d : Char) (name : Name) (hd : d ≠ '\\') (hn : NoNL name) :
-    ∃ res ok, matchName ref pat d name = .ret res ok ∧
-      Spec.MatchSpecFor d (canon d (ref ++ pat)) ref pat name res ok := by
-  simp only [matchName, Spec.MatchSpecFor]
+/-- `match` answers what RFC 3501 prescribes, for every reference, pattern, delimiter and name. -/
+theorem matchName_spec (ref pat : Name) (d : Char) (name : Name) :
+    ∃ res ok, matchName ref pat d name = .ret res ok ∧ Spec.MatchSpec d ref pat name res ok := by
+  simp only [matchName, Spec.MatchSpec, Spec.MatchSpecFor]
   by_cases hp : pat = []
   · subst hp
     exact ⟨matchRoot d ref, true, by simp, by simp [matchRoot_eq]⟩
   · have hpe : pat.isEmpty = false := by simpa using hp
-    have hdd : (d = '\\') = False := by simpa using hd
-    simp only [hpe, hdd, hp, if_false, Bool.false_eq_true, decide_false, Bool.false_and]
+    simp only [hpe, hp, if_false, Bool.false_eq_true]
+    rw [← canon_eq]
     generalize hcp : canon d (ref ++ pat) = cp
     by_cases hl : pat.getLast? = some '%'
     · have hE : EndsPct (toItems cp) := hcp ▸ endsPct_toItems d ref pat hl
@@ -106,18 +77,17 @@ theorem matchName_spec (ref pat : Name) (d : Char) (name : Name) (hd : d ≠ '\\
         · obtain ⟨t, _, hs, _⟩ := run_sound d false _ name r hr
           exact wild_of_sem hs cp rfl
         · intro q hq hw
-          have hnq := nonl_of_level hn hq
-          have hs := sem_of_wild hw hnq
+          have hs := sem_of_wild hw
           rw [Spec.mem_levels_iff] at hq
           rcases hq with ⟨t, rfl⟩ | rfl
-          · have := run_longest d _ hE q (d :: t) 0 r hs hn (by omega) (by simpa using hr)
+          · have := run_longest d _ hE q (d :: t) 0 r hs (by omega) (by simpa using hr)
             omega
-          · have := run_longest d _ hE q [] 0 r hs (by simpa [NoNL] using hn) (by omega) (by simpa using hr)
+          · have := run_longest d _ hE q [] 0 r hs (by omega) (by simpa using hr)
             omega
       | none =>
         refine ⟨[], false, rfl, Or.inr ⟨rfl, rfl, ?_⟩⟩
         intro q hq hw
-        have hs := sem_of_wild hw (nonl_of_level hn hq)
+        have hs := sem_of_wild hw
         rw [Spec.mem_levels_iff] at hq
         rcases hq with ⟨t, rfl⟩ | rfl
         · have := run_complete d false hs (d :: t) (by simp)
@@ -128,64 +98,7 @@ theorem matchName_spec (ref pat : Name) (d : Char) (name : Name) (hd : d ≠ '\\
       simp only [he, hl, Bool.not_false, ne_eq, not_false_eq_true, if_true]
       rcases run_anchored d (toItems cp) name with ⟨hs, hr⟩ | ⟨hs, hr⟩
       · exact ⟨name, true, by simp [hr], Or.inl ⟨rfl, rfl, wild_of_sem hs cp rfl⟩⟩
-      · exact ⟨[], false, by simp [hr], Or.inr ⟨rfl, rfl, fun hw => hs (sem_of_wild hw hn)⟩⟩
-
-/-- delimiter backslash: any `%` in reference ++ pattern makes `match` panic (DESIGN #22) -/
-theorem matchName_backslash_panics (ref pat name : Name) (hp : pat ≠ []) (h : '%' ∈ ref ++ pat) :
-    matchName ref pat '\\' name = .panic := by
-  have hpe : pat.isEmpty = false := by simpa using hp
-  have : '%' ∈ canon '\\' (ref ++ pat) := by
-    -- canonicalisation only rewrites INBOX spellings; a `%` stays
-    rw [canon_eq]
-    have key : ∀ (cs seg : Name), ('%' ∈ cs ∨ '%' ∈ seg) → '%' ∈ canonAllAux '\\' seg cs := by
-      intro cs
-      induction cs with
-      | nil =>
-        intro seg h
-        rcases h with h | h
-        · simp at h
-        · simp only [canonAllAux]
-          split
-          next hi =>
-            exfalso
-            simp only [Spec.isInboxSeg, beq_iff_eq] at hi
-            have : Char.toUpper '%' ∈ List.map Char.toUpper seg.reverse := List.mem_map_of_mem (by simpa using h)
-            rw [hi] at this
-            revert this; decide
-          · simpa using h
-      | cons c cs ih =>
-        intro seg h
-        simp only [canonAllAux]
-        split
-        next hc =>
-          by_cases hs : '%' ∈ seg
-          · apply List.mem_append_left
-            split
-            next hi =>
-              exfalso
-              simp only [Spec.isInboxSeg, beq_iff_eq] at hi
-              have : Char.toUpper '%' ∈ List.map Char.toUpper seg.reverse := List.mem_map_of_mem (by simpa using hs)
-              rw [hi] at this
-              revert this; decide
-            · simpa using hs
-          · apply List.mem_append_right
-            apply List.mem_cons_of_mem
-            apply ih
-            left
-            rcases h with h | h
-            · rcases List.mem_cons.mp h with h | h
-              · rw [← h] at hc; exact absurd hc (by decide)
-              · exact h
-            · exact absurd h hs
-        · apply ih
-          rcases h with h | h
-          · rcases List.mem_cons.mp h with h | h
-            · exact Or.inr (by rw [h]; exact List.mem_cons_self)
-            · left; exact h
-          · right; simp [h]
-    have := key (ref ++ pat) [] (Or.inl h)
-    simpa [canonAll] using this
-  simp [matchName, hpe, this]
+      · exact ⟨[], false, by simp [hr], Or.inr ⟨rfl, rfl, fun hw => hs (sem_of_wild hw)⟩⟩
 
 /-! ### getMatches -/
 
@@ -257,7 +170,7 @@ theorem mem_cands (d : Char) (order : List Name) (m q : Name) :
 
 theorem getMatchesOrd_eq (all : List MBox) (order : List Name) (ref pat : Name) (d : Char) (sub : Bool) :
     getMatchesOrd all order ref pat d sub =
-      (cands d order).foldl (fun acc mq => stepSuperior all ref pat d sub mq.1 acc mq.2) (some []) := by
+      (cands d order).foldl (fun acc mq => stepSuperior all ref pat d sub mq.1 acc mq.2) [] := by
   simp only [getMatchesOrd, cands, List.foldl_flatMap, List.foldl_map]
 
 /-- invariant of the fold: `ms` holds exactly what the steps `done` produced -/
@@ -269,11 +182,10 @@ structure Inv (all : List MBox) (ref pat : Name) (d : Char) (sub : Bool) (ms : M
   nodup : (ms.map (·.1)).Nodup
 
 theorem inv_step {all : List MBox} {ref pat : Name} {d : Char} {sub : Bool} {ms : Matches} {done : List (Name × Name)}
-    (hI : Inv all ref pat d sub ms done) (m q : Name) (hnp : matchName ref pat d q ≠ .panic) :
-    ∃ ms', stepSuperior all ref pat d sub m (some ms) q = some ms' ∧ Inv all ref pat d sub ms' (done ++ [(m, q)]) := by
+    (hI : Inv all ref pat d sub ms done) (m q : Name) :
+    Inv all ref pat d sub (stepSuperior all ref pat d sub m ms q) (done ++ [(m, q)]) := by
   simp only [stepSuperior]
   cases hm : matchName ref pat d q with
-  | panic => exact absurd hm hnp
   | ret p ok =>
     have grow : ∀ {ms'}, (∀ x, x ∈ ms → x ∈ ms') → (ms'.map (·.1)).Nodup →
         (∀ p' a, (p', a) ∈ ms' → (p', a) ∈ ms ∨ (p' = p ∧ ok = true ∧
@@ -299,25 +211,25 @@ theorem inv_step {all : List MBox} {ref pat : Name} {d : Char} {sub : Bool} {ms 
           exact hcur rfl
     cases ok with
     | false =>
-      exact ⟨ms, rfl, grow (fun _ h => h) hI.nodup (fun _ _ h => Or.inl h) (by simp)⟩
+      exact grow (fun _ h => h) hI.nodup (fun _ _ h => Or.inl h) (by simp)
     | true =>
       simp only
       cases hl : (List.lookup p ms).isSome with
       | true =>
         simp only [if_true]
-        exact ⟨ms, rfl, grow (fun _ h => h) hI.nodup (fun _ _ h => Or.inl h)
-          (fun _ => Or.inl ((lookup_isSome_iff ms p).mp hl))⟩
+        exact grow (fun _ h => h) hI.nodup (fun _ _ h => Or.inl h)
+          (fun _ => Or.inl ((lookup_isSome_iff ms p).mp hl))
       | false =>
         simp only [Bool.false_eq_true, if_false]
         cases hp : prepareMatch p (lookupMBox all p) pat (m == p) sub with
         | none =>
-          exact ⟨ms, rfl, grow (fun _ h => h) hI.nodup (fun _ _ h => Or.inl h) (fun _ => Or.inr hp)⟩
+          exact grow (fun _ h => h) hI.nodup (fun _ _ h => Or.inl h) (fun _ => Or.inr hp)
         | some na =>
           obtain ⟨n, a⟩ := na
           have hn : n = p := prepareMatch_name hp
           subst hn
           simp only [filter_ne_of_lookup_none ms n hl]
-          refine ⟨(n, a) :: ms, rfl, grow (fun _ h => by simp [h]) ?_ ?_ (fun _ => Or.inl ⟨a, by simp⟩)⟩
+          refine grow (ms' := (n, a) :: ms) (fun _ h => by simp [h]) ?_ ?_ (fun _ => Or.inl ⟨a, by simp⟩)
           · simp only [List.map_cons, List.nodup_cons]
             refine ⟨?_, hI.nodup⟩
             intro hmem
@@ -332,31 +244,22 @@ theorem inv_step {all : List MBox} {ref pat : Name} {d : Char} {sub : Bool} {ms 
 
 theorem inv_fold {all : List MBox} {ref pat : Name} {d : Char} {sub : Bool} (steps : List (Name × Name)) :
     ∀ (ms : Matches) (done : List (Name × Name)), Inv all ref pat d sub ms done →
-      (∀ mq ∈ steps, matchName ref pat d mq.2 ≠ .panic) →
-      ∃ ms', steps.foldl (fun acc mq => stepSuperior all ref pat d sub mq.1 acc mq.2) (some ms) = some ms' ∧
-        Inv all ref pat d sub ms' (done ++ steps) := by
+      Inv all ref pat d sub
+        (steps.foldl (fun acc mq => stepSuperior all ref pat d sub mq.1 acc mq.2) ms) (done ++ steps) := by
   induction steps with
-  | nil => intro ms done hI _; exact ⟨ms, rfl, by simpa using hI⟩
+  | nil => intro ms done hI; simpa using hI
   | cons s steps ih =>
-    intro ms done hI hnp
-    obtain ⟨ms1, e1, hI1⟩ := inv_step hI s.1 s.2 (hnp s (by simp))
-    obtain ⟨ms2, e2, hI2⟩ := ih ms1 (done ++ [(s.1, s.2)]) hI1 (fun mq h => hnp mq (by simp [h]))
-    refine ⟨ms2, ?_, by simpa using hI2⟩
-    simp only [List.foldl_cons, e1, e2]
+    intro ms done hI
+    have hI1 := inv_step hI s.1 s.2
+    have hI2 := ih _ (done ++ [(s.1, s.2)]) hI1
+    simpa using hI2
 
-/-- result of `getMatches`, whatever the map iteration order: it does not panic (given `match` does not)
-    and holds exactly one entry per produced name -/
-theorem getMatchesOrd_inv (all : List MBox) (order : List Name) (ref pat : Name) (d : Char) (sub : Bool)
-    (hnp : ∀ m ∈ order, ∀ q ∈ Spec.levels d m, matchName ref pat d q ≠ .panic) :
-    ∃ ms, getMatchesOrd all order ref pat d sub = some ms ∧ Inv all ref pat d sub ms (cands d order) := by
+/-- result of `getMatches`, whatever the map iteration order: it holds exactly one entry per produced name -/
+theorem getMatchesOrd_inv (all : List MBox) (order : List Name) (ref pat : Name) (d : Char) (sub : Bool) :
+    Inv all ref pat d sub (getMatchesOrd all order ref pat d sub) (cands d order) := by
   rw [getMatchesOrd_eq]
   have h0 : Inv all ref pat d sub [] [] := ⟨by simp, by simp, by simp⟩
-  obtain ⟨ms, e, hI⟩ := inv_fold (cands d order) [] [] h0 (by
-    intro mq h
-    obtain ⟨m, q⟩ := mq
-    rw [mem_cands] at h
-    exact hnp m h.1 q h.2)
-  exact ⟨ms, e, by simpa using hI⟩
+  simpa using inv_fold (cands d order) [] [] h0
 
 /-- the attributes `prepareMatch` gives a name that passes its subscription filter -/
 def attOf (all : List MBox) (p : Name) : Atts :=
@@ -413,13 +316,13 @@ theorem attOf_sel (all : List MBox) (p : Name) :
     · cases he : m.ent <;> simp [hp, he, h, Atts.sel]
 
 /-- what `match` yields on a level of a mailbox is a level of that mailbox which the pattern matches -/
-theorem match_reach_sound {ref pat : Name} {d : Char} {m q p : Name} (hd : DelimOK d) (hm : NoNL m)
+theorem match_reach_sound {ref pat : Name} {d : Char} {m q p : Name}
     (hp : pat ≠ []) (hq : q ∈ Spec.levels d m) (h : matchName ref pat d q = .ret p true) :
-    p ∈ Spec.levels d m ∧ Spec.Wild d (canon d (ref ++ pat)) p := by
-  obtain ⟨res, ok, e, hs⟩ := matchName_spec ref pat d q hd (nonl_of_level hm hq)
+    p ∈ Spec.levels d m ∧ Spec.Wild d (Spec.canon d (ref ++ pat)) p := by
+  obtain ⟨res, ok, e, hs⟩ := matchName_spec ref pat d q
   rw [h] at e
   cases e
-  simp only [Spec.MatchSpecFor, hp, if_false] at hs
+  simp only [Spec.MatchSpec, Spec.MatchSpecFor, hp, if_false] at hs
   split at hs
   · rcases hs with ⟨_, rfl, hw⟩ | ⟨h1, _⟩
     · exact ⟨hq, hw⟩
@@ -429,11 +332,11 @@ theorem match_reach_sound {ref pat : Name} {d : Char} {m q p : Name} (hd : Delim
     · cases h1
 
 /-- a level the pattern matches is found when `match` is asked about that level itself -/
-theorem match_reach_complete {ref pat : Name} {d : Char} {m p : Name} (hd : DelimOK d) (hm : NoNL m)
-    (hp : pat ≠ []) (hl : p ∈ Spec.levels d m) (hw : Spec.Wild d (canon d (ref ++ pat)) p) :
+theorem match_reach_complete {ref pat : Name} {d : Char} {p : Name}
+    (hp : pat ≠ []) (hw : Spec.Wild d (Spec.canon d (ref ++ pat)) p) :
     matchName ref pat d p = .ret p true := by
-  obtain ⟨res, ok, e, hs⟩ := matchName_spec ref pat d p hd (nonl_of_level hm hl)
-  simp only [Spec.MatchSpecFor, hp, if_false] at hs
+  obtain ⟨res, ok, e, hs⟩ := matchName_spec ref pat d p
+  simp only [Spec.MatchSpec, Spec.MatchSpecFor, hp, if_false] at hs
   split at hs
   · rcases hs with ⟨rfl, rfl, _⟩ | ⟨_, _, hn⟩
     · exact e
